@@ -188,7 +188,7 @@ def multiline_diff(old: odict, new: odict, diff_pre: odict, _pops: tuple[Op, ...
 
     ret = []
     for item in default_diff(old, new, diff_pre, _pops):
-        if old.get(item.row, {}) == new.get(item.row, {}):
+        if item.row in old and item.row in new and old[item.row] == new[item.row]:
             continue
         op, tree = Op.ADDED, new
         if item.op == Op.REMOVED:
